@@ -1,12 +1,240 @@
-(* C02 — Accepted programs never go wrong (first instalment; the soundness
-   theorem over the certificate checker is in SemSound.v when present). *)
-From Coq Require Import List Floats.
-From EvyV Require Import Base Ast Sem SemBasics.
-Import ListNotations.
+(* C02 — Accepted programs never go wrong (type soundness).
+   Property theorems only; every proof is [exact <lemma of SemSound>].
 
-(* the arithmetic and comparison rows of the operator table never produce an internal error *)
-Theorem C02_num_operators_total : forall op x y s,
-  In op [BPlus; BMinus; BAsterisk; BSlash; BPercent; BGt; BLt; BGtEq; BLtEq] ->
-  exists l s', bin_num op x y s = (Ok l, s').
-Proof. exact bin_num_no_internal. Qed.
-Print Assumptions C02_num_operators_total.
+   wt_program (Static.v) is the certificate checker run on the tree exported
+   from parser.Parse: it re-checks the parser's type annotations and Any
+   wrappers.  "Going wrong" = the run ends in OErr (EInternal _) (an
+   ErrInternal-wrapped error) or OErr (EHostCrash _) (a Go panic).
+
+   STATUS.  Proved for the Stage-1 fragment [s1_program] (no maps, no user
+   functions / handlers, `any` only as the type of a variable or of an
+   argument wrapper, never inside an array): C02_soundness_partial,
+   C02_preservation_partial.  The full statement [soundness_full] is REFUTED
+   on the model (and on the implementation): C02_soundness_full_refuted. *)
+From Coq Require Import ZArith NArith List String Bool.
+From EvyV Require Import Base Num Ast Omap Sem Static SemSound.
+Import ListNotations.
+Open Scope Z_scope.
+
+(* ---------- the full statements (NOT proved; the first one is false) ---------- *)
+Definition soundness_full : Prop :=
+  forall P, wt_program P = true ->
+  forall fuel s0, state_ok s0 -> ~ goes_wrong (fst (run_program fuel P s0)).
+
+(* what remains plausible for the whole language once wt also orders calls
+   after the declarations of the globals their bodies assign: no internal
+   error, and the only host crash is the exhaustion of the host stack by a
+   value that contains itself (print / == / array repetition on a cyclic
+   []any or {}any).  Not proved (Stage 2). *)
+Definition overflow_reason (w : str) : Prop :=
+  w = s_ "stack overflow in String" \/ w = s_ "stack overflow in Equals" \/
+  w = s_ "stack overflow in deepCopy" \/ w = s_ "stack overflow in same".
+
+Definition soundness_modulo_overflow_full (wt' : program -> bool) : Prop :=
+  forall P, wt' P = true ->
+  forall fuel s0, state_ok s0 ->
+    match fst (run_program fuel P s0) with
+    | OErr (EInternal _) => False
+    | OErr (EHostCrash w) => overflow_reason w
+    | _ => True
+    end.
+
+(* ---------- proved: soundness on the Stage-1 fragment ---------- *)
+(* for EVERY program, EVERY fuel and EVERY well-typed start state *)
+Theorem C02_soundness_partial : forall P,
+  wt_program P = true -> s1_program P = true ->
+  forall fuel s0, state_ok s0 -> ~ goes_wrong (fst (run_program fuel P s0)).
+Proof. exact soundness_stage1. Qed.
+Print Assumptions C02_soundness_partial.
+
+(* the start states of Evaluator.Eval are well typed, whatever the stop point,
+   the input, and the two flags *)
+Theorem C02_init_state_ok : forall stop input failfast after_yield,
+  state_ok (init_state stop input failfast after_yield).
+Proof. exact init_state_ok. Qed.
+Print Assumptions C02_init_state_ok.
+
+(* ---------- proved: preservation on the Stage-1 fragment ---------- *)
+(* under a store typing S (cell ↦ dynamic type) that types the heap and the
+   environment, an expression of static type t evaluates — if it returns — to a
+   cell of dynamic type t under an extension of S that still types heap and
+   environment; it never ends in an internal error or a host crash *)
+Theorem C02_preservation_partial : forall n P e x G t S s,
+  ety (p_funcs P) G x = Some t -> s1_expr x = true -> genv_ok G -> inv S G e s ->
+  match eval_expr n P e x s with
+  | (Ok l, s') => exists S', ext S S' /\ inv S' G e s' /\ sfind S' l = Some t
+  | (Er er, _) => safe_err er
+  end.
+Proof. exact preservation_stage1. Qed.
+Print Assumptions C02_preservation_partial.
+
+(* a value stored in an any carries a concrete non-any type, and its content
+   has exactly that dynamic type; any-cells occur only at type any *)
+Theorem C02_any_cells_concrete : forall S h l,
+  heap_ok S h -> sfind S l = Some TAny ->
+  exists u i v, hget h l = Some (HAny u i) /\ u <> TAny /\ sfind S i = Some u /\
+                hget h i = Some v /\ cell_ok S v u.
+Proof. exact any_cells_concrete. Qed.
+Print Assumptions C02_any_cells_concrete.
+
+Theorem C02_any_cells_only_at_any : forall S h l u i,
+  heap_ok S h -> hget h l = Some (HAny u i) -> forall t, sfind S l = Some t -> t = TAny.
+Proof. exact any_cells_only_at_any. Qed.
+Print Assumptions C02_any_cells_only_at_any.
+
+(* typeof: the Any node tags its cell with its annotation (which wt forces to
+   be the static type of the wrapped expression, whose value has that dynamic
+   type by preservation); copying the argument keeps the tag; typeof returns
+   the text of the tag.  These three hold for all programs. *)
+Theorem C02_any_node_tags_with_annotation : forall n P e a t s l s',
+  eval_expr n P e (EAny a t) s = (Ok l, s') -> exists i, hget (st_heap s') l = Some (HAny t i).
+Proof. exact eany_tag. Qed.
+Print Assumptions C02_any_node_tags_with_annotation.
+
+Theorem C02_argument_copy_keeps_tag : forall d l s l' s' u i,
+  copy_or_ref d l s = (Ok l', s') -> hget (st_heap s) l = Some (HAny u i) ->
+  exists i', hget (st_heap s') l' = Some (HAny u i').
+Proof. exact copy_or_ref_tag. Qed.
+Print Assumptions C02_argument_copy_keeps_tag.
+
+Theorem C02_typeof_prints_tag : forall e l u i s,
+  hget (st_heap s) l = Some (HAny u i) ->
+  exists m r s', builtin (s_ "typeof") e [l] = Some m /\ m s = (Ok (Some r), s') /\
+                 hget (st_heap s') r = Some (HStr (ty_str u)).
+Proof. exact typeof_any_tag. Qed.
+Print Assumptions C02_typeof_prints_tag.
+
+(* ---------- example programs (as the Go harness exports them) ---------- *)
+Definition v_ (n : string) (t : ty) : expr := EVar (s_ n) t.
+(* number literals travel as their IEEE bit patterns, as in the export *)
+Definition n0 : expr := ENum (float_of_bits 0).
+Definition n1 : expr := ENum (float_of_bits 4607182418800017408).
+Definition n2 : expr := ENum (float_of_bits 4611686018427387904).
+Definition s0_ : state := init_state None [] false false.
+
+(*  x := 1 / a := [1 2] / for i := range 2 / a[i] = a[i] + x / end / print a (len a)  *)
+Definition ex_ok : program :=
+  {| p_funcs := []; p_handlers := [];
+     p_stmts :=
+       [SDecl (s_ "x") TNum n1;
+        SDecl (s_ "a") (TArr TNum) (EArr (TArr TNum) [n1; n2]);
+        SFor (Some (s_ "i")) TNum (RStep None n2 None)
+          [SAssign (EIndex TNum (v_ "a" (TArr TNum)) (v_ "i" TNum))
+                   (EBin BPlus TNum (EIndex TNum (v_ "a" (TArr TNum)) (v_ "i" TNum)) (v_ "x" TNum))];
+        SCallStmt (s_ "print")
+          [EAny (v_ "a" (TArr TNum)) (TArr TNum);
+           EAny (EGroup (ECall (s_ "len") TNum [EAny (v_ "a" (TArr TNum)) (TArr TNum)])) TNum]] |}.
+
+(* non-vacuity of C02_soundness_partial: a program with a loop, an element
+   assignment, arithmetic, any-wrapped arguments and two built-ins satisfies
+   both hypotheses, and its run (finished, not cut by the fuel) prints [2 3] 2 *)
+Example C02_ex_ok_hyps : wt_program ex_ok = true /\ s1_program ex_ok = true.
+Proof. vm_compute. split; reflexivity. Qed.
+
+Example C02_ex_ok_run :
+  let '(o, s) := run_program 200 ex_ok s0_ in
+  o = ODone /\
+  match st_trace s with [EvPrint p] => pieces_str p = Some (s_ "[2 3] 2" ++ [10%N]) | _ => False end.
+Proof. vm_compute. split; reflexivity. Qed.
+
+(* ---------- the full statement is false ---------- *)
+(*  a:[]any / a = [1] / a[0] = a / print a  : accepted by the Go parser and by
+    wt; String() recurses for ever on the value that contains itself (the Go
+    runtime aborts with "stack overflow"; confirmed on the implementation) *)
+Definition ex_cyclic : program :=
+  {| p_funcs := []; p_handlers := [];
+     p_stmts :=
+       [SDecl (s_ "a") (TArr TAny) (EArr (TArr TAny) []);
+        SAssign (v_ "a" (TArr TAny)) (EArr (TArr TAny) [EAny n1 TNum]);
+        SAssign (EIndex TAny (v_ "a" (TArr TAny)) n0) (EAny (v_ "a" (TArr TAny)) (TArr TAny));
+        SCallStmt (s_ "print") [EAny (v_ "a" (TArr TAny)) (TArr TAny)]] |}.
+
+(*  f / x := 1 / print x / func f / x = 2 / end  : the body of f assigns a
+    global that does not exist yet when f is called; scope.update panics
+    ("internal error: bad assignment target"; confirmed on the implementation) *)
+Definition ex_early_call : program :=
+  {| p_funcs := [{| fn_name := s_ "f"; fn_params := []; fn_variadic := None; fn_ret := TNone;
+                    fn_body := [SAssign (v_ "x" TNum) n2] |}];
+     p_handlers := [];
+     p_stmts :=
+       [SCallStmt (s_ "f") [];
+        SDecl (s_ "x") TNum n1;
+        SCallStmt (s_ "print") [EAny (v_ "x" TNum) TNum];
+        SNop] |}.
+
+Theorem C02_soundness_full_refuted :
+  exists P fuel, wt_program P = true /\ goes_wrong (fst (run_program fuel P s0_)).
+Proof. exists ex_cyclic, 100%nat. vm_compute. split; [reflexivity|exact I]. Qed.
+Print Assumptions C02_soundness_full_refuted.
+
+Example C02_cyclic_outcome :
+  fst (run_program 100 ex_cyclic s0_) = OErr (EHostCrash (s_ "stack overflow in String")).
+Proof. vm_compute. reflexivity. Qed.
+
+Theorem C02_soundness_full_refuted_early_call :
+  wt_program ex_early_call = true /\
+  fst (run_program 100 ex_early_call s0_) = OErr (EHostCrash (s_ "update of unknown variable")).
+Proof. vm_compute. split; reflexivity. Qed.
+Print Assumptions C02_soundness_full_refuted_early_call.
+
+Theorem C02_not_soundness_full : ~ soundness_full.
+Proof.
+  intros H. destruct C02_soundness_full_refuted as (P & fuel & Hwt & Hbad).
+  exact (H P Hwt fuel s0_ (init_state_ok _ _ _ _) Hbad).
+Qed.
+Print Assumptions C02_not_soundness_full.
+
+(* ---------- programs the Go parser accepts, wt rejects, and that go wrong ---------- *)
+(* each is the exported tree of a source the real parser.Parse accepts and the
+   real Evaluator.Eval crashes on (Go panic); the model crashes the same way *)
+
+(*  x := 1 / for i := range 2 / print x+1 i / x := "a" / print x / end
+    the for statement keeps one scope for all iterations: in the second one
+    `x` is the string declared in the first *)
+Definition ex_for_shadow : program :=
+  {| p_funcs := []; p_handlers := [];
+     p_stmts :=
+       [SDecl (s_ "x") TNum n1;
+        SFor (Some (s_ "i")) TNum (RStep None n2 None)
+          [SCallStmt (s_ "print") [EAny (EBin BPlus TNum (v_ "x" TNum) n1) TNum; EAny (v_ "i" TNum) TNum];
+           SDecl (s_ "x") TStr (EStr (s_ "a"));
+           SCallStmt (s_ "print") [EAny (v_ "x" TStr) TStr]]] |}.
+
+Example C02_hole_for_shadow :
+  wt_program ex_for_shadow = false /\
+  fst (run_program 200 ex_for_shadow s0_) = OErr (EHostCrash (s_ "value is not a *stringVal")).
+Proof. vm_compute. split; reflexivity. Qed.
+
+(*  y := ([[]] + [[1]])[1] + ["a"] / print y[0]+"b"
+    `[[]] + [[1]]` is given the type of its LEFT operand, [][] : its element
+    [1] is then an untyped [] for the checker and concatenates with ["a"] *)
+Definition ex_concat_left : program :=
+  {| p_funcs := []; p_handlers := [];
+     p_stmts :=
+       [SDecl (s_ "y") (TArr TStr)
+          (EBin BPlus (TArr TStr)
+             (EIndex TEmptyArr
+                (EGroup (EBin BPlus (TArr TEmptyArr)
+                           (EArr (TArr TEmptyArr) [EArr TEmptyArr []])
+                           (EArr (TArr (TArr TNum)) [EArr (TArr TNum) [n1]])))
+                n1)
+             (EArr (TArr TStr) [EStr (s_ "a")]));
+        SCallStmt (s_ "print")
+          [EAny (EBin BPlus TStr (EIndex TStr (v_ "y" (TArr TStr)) n0) (EStr (s_ "b"))) TStr]] |}.
+
+Example C02_hole_concat_left :
+  wt_program ex_concat_left = false /\
+  fst (run_program 200 ex_concat_left s0_) = OErr (EHostCrash (s_ "value is not a *numVal")).
+Proof. vm_compute. split; reflexivity. Qed.
+
+(*  x := [(cls)] / print x   : a call without result as an array element *)
+Definition ex_none_element : program :=
+  {| p_funcs := []; p_handlers := [];
+     p_stmts :=
+       [SDecl (s_ "x") (TArr TNone) (EArr (TArr TNone) [EGroup (ECall (s_ "cls") TNone [])]);
+        SCallStmt (s_ "print") [EAny (v_ "x" (TArr TNone)) (TArr TNone)]] |}.
+
+Example C02_hole_none_element :
+  wt_program ex_none_element = false /\
+  fst (run_program 200 ex_none_element s0_) = OErr (EHostCrash (s_ "copyOrRef called with invalid value")).
+Proof. vm_compute. split; reflexivity. Qed.
